@@ -6,7 +6,7 @@ use iroh::{PublicKey, SecretKey};
 use iroh_docs::{
     actor::SyncHandle,
     engine::{
-        verif::{set_dial_log, take_dials, LiveActor, VerifPeerSnapshot},
+        verif::{set_dial_log, take_dials, LiveActor, SyncReport, ToLiveActor, VerifPeerSnapshot},
         Origin, SyncReason,
     },
     net::{AbortReason, AcceptError, AcceptOutcome, ConnectError, SyncFinished, Timings},
@@ -20,7 +20,7 @@ use crate::{
     explore::{bfs, Outcome as BfsOutcome},
     report::Report,
     sut::{block_on, block_on_park},
-    universe::{ns_id, ns_secret},
+    universe::{author_id, ns_id, ns_secret, Spec, Val, T0},
     util::catch,
     Ctx, PropDef, Tier,
 };
@@ -171,6 +171,20 @@ async fn make_node(seed: u8) -> anyhow::Result<Node> {
     let mut store = Store::memory();
     store.import_namespace(Capability::Write(ns_secret(0)))?;
     store.import_namespace(Capability::Write(ns_secret(1)))?;
+    {
+        // the shared document holds one entry (author 0 at T0+2), so that a neighbour's report
+        // can be news or not (searches that deliver triggers as actor messages)
+        let mut r = store.open_replica(&ns())?;
+        r.insert_remote_entry(
+            Spec::new(0, 0, b"a", 2, Val::X).signed(),
+            crate::sut::PEER,
+            iroh_docs::ContentStatus::Missing,
+        )
+        .await
+        .map_err(|e| anyhow::anyhow!("seed entry: {e}"))?;
+        drop(r);
+        store.close_replica(ns());
+    }
     let sync = SyncHandle::spawn(store, None, format!("c11-{seed}"));
     let (tx, rx) = tokio::sync::mpsc::channel(64);
     let id = ep.id();
@@ -291,7 +305,46 @@ impl Model {
 }
 
 /// Execute a history. Returns None if the last event is not enabled.
-fn exec(hist: &[Ev], max_dials: usize, max_leaves: u32, queued: bool) -> Option<(Bad, String, String, Vec<Ev>)> {
+/// A neighbour's sync report naming `author` at `ts`.
+fn report_bytes(heads: &[(u8, u64)]) -> Vec<u8> {
+    let mut h = iroh_docs::AuthorHeads::default();
+    for (a, t) in heads {
+        h.insert(author_id(*a), *t);
+    }
+    h.encode(None).expect("encode heads")
+}
+
+/// For C13 (d): does an idle node whose shared document additionally holds `extra` dial the sender
+/// of a sync report naming `heads` for `report_ns`? The report goes through `on_actor_message` ->
+/// `on_sync_report` (decode, `has_news_for_us` of the store actor, `sync_with_peer`). Entries are
+/// only ever added to the node's document (callers pass growing sets).
+pub fn sync_report_dials(extra: &[Spec], report_ns: u8, heads: &[(u8, u64)]) -> (bool, Vec<(iroh_docs::AuthorId, u64)>) {
+    with_pair(|pair| {
+        reset(pair);
+        let peer = pair.nodes[1].id;
+        let node = &mut pair.nodes[0];
+        node.actor.verif_set_download_queued(ns(), false);
+        for e in extra {
+            let _ = block_on_park(node._sync.insert_remote(ns(), e.signed(), crate::sut::PEER, iroh_docs::ContentStatus::Missing));
+        }
+        let held: Vec<(iroh_docs::AuthorId, u64)> = block_on_park(crate::sut::handle_dump(&node._sync, ns()))
+            .expect("dump")
+            .iter()
+            .map(|e| (e.author(), e.timestamp()))
+            .collect();
+        let report = SyncReport::verif_new(ns_id(report_ns), report_bytes(heads));
+        let _ = block_on_park(node.actor.verif_on_actor_message(ToLiveActor::IncomingSyncReport { from: peer, report }));
+        let dialed = !take_dials().is_empty();
+        (dialed, held)
+    })
+}
+
+fn exec(hist: &[Ev], max_dials: usize, max_leaves: u32, mode: u8) -> Option<(Bad, String, String, Vec<Ev>)> {
+    let queued = mode & 1 != 0;
+    // triggers and requests are delivered as messages to the actor (`on_actor_message`): a
+    // neighbour coming up, a neighbour's sync report (decoded and compared with the document's
+    // heads by the real handler), an accept request with its reply channel
+    let via_messages = mode & 2 != 0;
     with_pair(|pair| {
         reset(pair);
         // environment of the completion handlers: is a content download of the document queued?
@@ -322,9 +375,24 @@ fn exec(hist: &[Ev], max_dials: usize, max_leaves: u32, queued: bool) -> Option<
                     }
                     let was_busy = m.busy(n);
                     let peer = ids[1 - n as usize];
-                    pair.nodes[n as usize]
-                        .actor
-                        .verif_sync_with_peer(ns(), peer, reason.to());
+                    if via_messages && reason != Reason::DirectJoin {
+                        let actor = &mut pair.nodes[n as usize].actor;
+                        match reason {
+                            Reason::NewNeighbor => {
+                                let _ = block_on_park(actor.verif_on_actor_message(ToLiveActor::NeighborUp { namespace: ns(), peer }));
+                            }
+                            _ => {
+                                // news: a strictly newer head of a known author / an unknown author
+                                let heads = if i % 2 == 0 { vec![(0u8, T0 + 3)] } else { vec![(0u8, T0 + 2), (1u8, 0)] };
+                                let report = SyncReport::verif_new(ns(), report_bytes(&heads));
+                                let _ = block_on_park(actor.verif_on_actor_message(ToLiveActor::IncomingSyncReport { from: peer, report }));
+                            }
+                        }
+                    } else {
+                        pair.nodes[n as usize]
+                            .actor
+                            .verif_sync_with_peer(ns(), peer, reason.to());
+                    }
                     let dials = take_dials();
                     observed = format!("Trigger({n},{reason:?})->{}", if dials.is_empty() { "refused" } else { "dial" });
                     match dials.len() {
@@ -378,9 +446,25 @@ fn exec(hist: &[Ev], max_dials: usize, max_leaves: u32, queued: bool) -> Option<
                         return None;
                     }
                     let acc = 1 - dial.from;
-                    let outcome = pair.nodes[acc as usize]
-                        .actor
-                        .accept_sync_request(ns(), ids[dial.from as usize]);
+                    let outcome = if via_messages {
+                        let (reply, mut rx) = tokio::sync::oneshot::channel();
+                        let _ = block_on_park(pair.nodes[acc as usize].actor.verif_on_actor_message(ToLiveActor::AcceptSyncRequest {
+                            namespace: ns(),
+                            peer: ids[dial.from as usize],
+                            reply,
+                        }));
+                        match rx.try_recv() {
+                            Ok(o) => o,
+                            Err(_) => {
+                                step_bad.push(("accept_request_is_answered", json!({}), format!("node {acc} did not answer an accept request")));
+                                AcceptOutcome::Reject(AbortReason::InternalServerError)
+                            }
+                        }
+                    } else {
+                        pair.nodes[acc as usize]
+                            .actor
+                            .accept_sync_request(ns(), ids[dial.from as usize])
+                    };
                     observed = format!("Deliver({d})->{outcome:?}");
                     let allow = matches!(outcome, AcceptOutcome::Allow);
                     // S2: crossing dials
@@ -855,24 +939,26 @@ fn run(ctx: &Ctx, report: &mut Report) {
     // (dials, leaves): the second search adds "a node leaves the document" with one dial less
     // the third search repeats the first with a content download of the document queued at both
     // nodes (the only other thing the completion handlers read besides the coordination state)
-    let searches: Vec<(usize, u32, bool)> = if ctx.quick() {
-        vec![(3, 0, false), (3, 1, false), (3, 0, true)]
+    // the fourth search delivers triggers and requests as actor messages (mode bit 1)
+    let searches: Vec<(usize, u32, u8)> = if ctx.quick() {
+        vec![(3, 0, 0), (3, 1, 0), (3, 0, 1), (2, 1, 2)]
     } else {
-        vec![(4, 0, false), (4, 1, false), (4, 0, true)]
+        vec![(4, 0, 0), (4, 1, 0), (4, 0, 1), (3, 1, 2)]
     };
-    for (max_dials, max_leaves, queued) in searches {
+    for (max_dials, max_leaves, mode) in searches {
+        let queued = mode & 1 != 0;
         let t0 = std::time::Instant::now();
         // quick tier: the search with a leave uses two trigger reasons (NewNeighbor and DirectJoin
         // differ only in identity for the coordination code); the other searches use all three
         let evs = events(max_dials, !(ctx.quick() && max_leaves > 0));
-        let tag = if queued { "_download_queued" } else { "" };
+        let tag = if queued { "_download_queued" } else if mode & 2 != 0 { "_via_actor_messages" } else { "" };
         report.fact(&format!("events_{max_dials}_dials_{max_leaves}_leaves{tag}"), json!(evs.len()));
         let depth = 4 * max_dials + 2 + max_leaves as usize;
         let mut evals = 0u64;
         let mut nt = 0u64;
         bfs(ctx, report, &evs, depth, 2, |h, report, ordinal| {
-            let res = catch(|| exec(h, max_dials, max_leaves, queued));
-            let case = json!({"hist": h, "max_dials": max_dials, "max_leaves": max_leaves, "queued": queued});
+            let res = catch(|| exec(h, max_dials, max_leaves, mode));
+            let case = json!({"hist": h, "max_dials": max_dials, "max_leaves": max_leaves, "queued": queued, "mode": mode});
             match res {
                 Err(p) => {
                     report.violation("no_panic", json!({}), case, format!("panic: {p}"), ordinal);
@@ -911,7 +997,8 @@ fn replay(case: &Value) -> anyhow::Result<(bool, String)> {
     let max_dials = case["max_dials"].as_u64().unwrap_or(5) as usize;
     let max_leaves = case["max_leaves"].as_u64().unwrap_or(1) as u32;
     let queued = case["queued"].as_bool().unwrap_or(false);
-    match catch(|| exec(&hist, max_dials, max_leaves, queued)) {
+    let mode = case["mode"].as_u64().map(|m| m as u8).unwrap_or(queued as u8);
+    match catch(|| exec(&hist, max_dials, max_leaves, mode)) {
         Err(p) => Ok((true, format!("panic: {p}"))),
         Ok(None) => Ok((false, "history not enabled".into())),
         Ok(Some((bad, key, observed, _))) => {
